@@ -38,3 +38,9 @@ Require Import GM.model.ParseI GM.model.ParseChecked GM.proofs.ParseCheckedProof
 Theorem C04_convert_safe_urls : forall c src o, unsafe c = false -> ConvertModelC c src = Ok o -> Inert o.
 Proof. exact ConvertModelC_safe_inert. Qed.
 Print Assumptions C04_convert_safe_urls.
+(* the same without the run-time check of the parser's output (the parser model is proved to
+   yield well-formed trees, props/C05.v): for every source *)
+Require Import GM.proofs.ParseInv GM.proofs.ParseFinal.
+Theorem C04_convert_model_safe_urls : forall c src o, unsafe c = false -> bytes_ok src -> ConvertModel c src = Ok o -> Inert o.
+Proof. exact ConvertModel_safe_inert_all. Qed.
+Print Assumptions C04_convert_model_safe_urls.
